@@ -68,8 +68,10 @@ def handle(c):
     if k == 'composite':
         L = layout(c['name'])
         mk = lambda inv: None if inv is None else RepetitionCodeDescription.from_connectivity(involved_qubit_ids=[Q(q) for q in inv], connectivity=L)
+        base = mk(c['involved'])
+        base_before = observe(base)
         d = CompositeRepetitionCodeDescription(
-            _base_description=mk(c['involved']),
+            _base_description=base,
             _qubit_index_map={Q(q): int(i) for q, i in c['index']},
             _connectivity=L,
             _leading_readout_description=mk(c['lead_readout']),
@@ -78,7 +80,12 @@ def handle(c):
             _exclude_gate_qubit_ids=[Q(q) for q in c['excl_q']],
             _only_required_parking_operations=bool(c['only']),
         )
-        return observe(d)
+        out = observe(d)
+        # reading a derived description must not change the description it is derived from, nor a sibling, nor itself
+        sibling = CompositeRepetitionCodeDescription(_base_description=base, _qubit_index_map={Q(q): int(i) for q, i in c['index']}, _connectivity=L)
+        out['base_unchanged'] = bool(observe(base) == base_before and observe(d) == {k: v for k, v in out.items()}
+                                     and layers_of(sibling.gate_sequences) == base_before['layers'])
+        return out
     raise ValueError(k)
 
 
